@@ -52,11 +52,15 @@ VARIABLES cfg,        \* [mode, trigger, seg, faults: Seq of [at, kind]]
           log         \* one record per finished sync: what the harness can observe
 vars == <<cfg, phase, pc, b, req, segblocks, segleft, over, ctxdead, store, latest, cached, noPath, rep, log>>
 
-Faults == [at : 1..(N + 1), kind : Kinds, k2 : PairKinds \cup {"none"}]      \* k2: what happens to request at + 1
+Faults == [at : 0..(N + 1), kind : Kinds, k2 : PairKinds \cup {"none"}]      \* k2: what happens to request at + 1
+(* at = 0: the discovery requests that precede a publisher's first sync when it is reached through libp2p-HTTP discovery
+   (/.well-known/libp2p/...).  Whatever happens to them, the client falls back to plain HTTP and the sync goes ahead.     *)
+DiscoveryKinds == {"reset", "s500", "s404"}
 Configs == {[mode |-> m, trigger |-> t, seg |-> s, addrs |-> a, faults |-> f] :
               m \in Modes, t \in Triggers, s \in Segs, a \in 1..MaxAddrs, f \in UNION {[1..k -> Faults] : k \in 1..MaxFaulty}}
 FailOverKinds == {"reset", "stall"}      \* the request itself fails (no response): the client moves on to the next address
 Applicable(c) == /\ (c.addrs = 2 => c.mode = "plain")
+                 /\ \A i \in 1..Len(c.faults) : c.faults[i].at = 0 => (c.mode = "libp2p" /\ c.faults[i].kind \in DiscoveryKinds /\ c.faults[i].k2 = "none")
                  /\ \A i \in 1..Len(c.faults) :
                    /\ (c.faults[i].k2 = "hookfail" => c.seg > 0) /\ (c.faults[i].k2 = "cancel" => c.trigger = "explicit")
                    \* a reset connection may be retried by the transport itself, which would consume the next request slot: resets do not pair
